@@ -31,26 +31,34 @@ func init() {
 
 func ruleC06CheckedBeforeUse(c *Ctx) {
 	u := c.U1
-	c.rule("C06.checked-before-use", "every keyCacher.GetOrLoad in DecryptDataRowRecord is on the true edge of partition.IsValidIntermediateKeyID(<record>.Key.ParentKeyMeta.ID) for the same record, and the false edge returns a non-nil error", 2)
+	c.rule("C06.checked-before-use", "every keyCacher.GetOrLoad / decryptRow in DecryptDataRowRecord is reached only where partition.IsValidIntermediateKeyID(<record>.Key.ParentKeyMeta.ID) is known true for the same record (directly or through a validation helper whose success implies it), and the rejecting edge returns (nil, error)", 2)
 	f := u.Method(pkgApp, "envelopeEncryption", "DecryptDataRowRecord")
 	if f == nil {
 		c.unresolved("DecryptDataRowRecord", "(*envelopeEncryption).DecryptDataRowRecord")
 		return
 	}
 	c.FuncsAnalysed[shortName(f)] = true
-	var valid *ssa.Call
-	allInstrs(f, func(i ssa.Instruction) {
-		if invokeIs(i, pkgApp, "partition", "IsValidIntermediateKeyID") {
-			valid, _ = i.(*ssa.Call)
-		}
-	})
-	if valid == nil {
-		c.bad(shortName(f)+"/validation", u.pos(f.Pos()), "DecryptDataRowRecord no longer validates the record's parent key id against the session's partition")
-		return
+	recPath := "P:" + f.Params[2].Name()
+	isValidCall := func(v ssa.Value) bool {
+		cv, ok := strip(v).(*ssa.Call)
+		return ok && invokeIs(cv, pkgApp, "partition", "IsValidIntermediateKeyID")
 	}
-	argPath := accessPath(valid.Call.Args[0])
-	okArg := strings.HasSuffix(argPath, ".Key.ParentKeyMeta.ID") && strings.HasPrefix(argPath, "P:"+f.Params[2].Name())
-	c.check(okArg, shortName(f)+"/validated-value", u.ipos(valid), "validates "+argPath, "the id being validated ("+argPath+") is not the record's Key.ParentKeyMeta.ID")
+	// validatedAt: a fact at block b says IsValidIntermediateKeyID(rec.Key.ParentKeyMeta.ID) == true
+	validatedAt := func(b *ssa.BasicBlock) (bool, string) {
+		why := "no partition validation of the record's parent key id is known to have succeeded here"
+		for _, fct := range factsAt(b) {
+			if !fct.True || !isValidCall(fct.V) {
+				continue
+			}
+			arg := strip(fct.V).(*ssa.Call).Call.Args[0]
+			ap := trimAddr(fct.pathOf(arg))
+			if ap == recPath+".Key.ParentKeyMeta.ID" {
+				return true, "validated " + ap
+			}
+			why = "the id being validated (" + ap + ") is not the record's Key.ParentKeyMeta.ID"
+		}
+		return false, why
+	}
 	n := 0
 	allInstrs(f, func(i ssa.Instruction) {
 		if !invokeIs(i, pkgApp, "keyCacher", "GetOrLoad") && !invokeIs(i, pkgApp, "keyCacher", "GetOrLoadLatest") && staticCallee(i) != u.Func(pkgApp, "decryptRow") {
@@ -58,38 +66,38 @@ func ruleC06CheckedBeforeUse(c *Ctx) {
 		}
 		n++
 		construct := shortName(f) + "/" + calleeLabel(i)
-		g := guardedBy(i, true, func(v ssa.Value) bool { return strip(v) == ssa.Value(valid) })
-		c.check(g, construct, u.ipos(i), "only on the IsValidIntermediateKeyID == true edge", "a key lookup / decryption happens on a path that did not pass the partition check: another partition's record would be decrypted")
+		ok, why := validatedAt(i.Block())
+		c.check(ok, construct, u.ipos(i), "only where the partition check is known to have passed ("+why+")", "a key lookup / decryption happens on a path that did not pass the partition check for this record ("+why+"): another partition's record would be decrypted")
 		if cc := callOf(i); invokeIs(i, pkgApp, "keyCacher", "GetOrLoad") {
-			// the meta looked up is the record's own ParentKeyMeta
 			mp := strings.TrimPrefix(accessPath(cc.Args[0]), "*")
-			c.check(strings.HasSuffix(mp, ".Key.ParentKeyMeta") && strings.HasPrefix(mp, "P:"+f.Params[2].Name()), construct+"/meta", u.ipos(i), "looks up "+mp, "the key looked up ("+mp+") is not the validated record's ParentKeyMeta")
+			c.check(mp == recPath+".Key.ParentKeyMeta", construct+"/meta", u.ipos(i), "looks up "+mp, "the key looked up ("+mp+") is not the validated record's ParentKeyMeta")
 		}
 	})
-	// false edge returns an error
-	bad := false
-	for _, b := range f.Blocks {
-		for _, s := range b.Succs {
-			for _, fct := range edgeFacts(b, s) {
-				if strip(fct.V) == ssa.Value(valid) && !fct.True {
-					found, _ := pathSearchAt(s, 0, func(j ssa.Instruction) pathAction {
-						if r, ok := j.(*ssa.Return); ok {
-							if isNilValue(returnedValue(r, 1)) || !isNilValue(returnedValue(r, 0)) {
-								return pathFound
-							}
-							return pathStop
-						}
-						return pathContinue
-					}, nil)
-					if found {
-						bad = true
+	if n == 0 {
+		c.bad(shortName(f)+"/validation", u.pos(f.Pos()), "DecryptDataRowRecord performs no key lookup")
+	}
+	// every success return (non-nil data possible) must be validated too; equivalently the rejecting paths return errors:
+	for _, r := range returnsOf(f) {
+		if len(r.Results) < 2 || !isNilValue(returnedValue(r, 1)) {
+			// error may be non-nil: fine (reject path or callee's error)
+			if k := returnedValue(r, 1); k != nil {
+				if _, isC := strip(k).(*ssa.Const); isC && !isNilConst(strip(k)) {
+					continue
+				}
+				if !isNilConst(strip(k)) {
+					// error comes from a call (decryptRow / loader): must be on the validated side unless data is nil
+					if isNilValue(returnedValue(r, 0)) {
+						continue
 					}
 				}
 			}
 		}
+		if isNilValue(returnedValue(r, 0)) {
+			continue
+		}
+		ok, why := validatedAt(r.Block())
+		c.check(ok, shortName(f)+"/data-return", u.ipos(r), "plaintext can be returned only on the validated side", "plaintext can be returned on a path that did not pass the partition check: "+why)
 	}
-	c.check(!bad, shortName(f)+"/reject", u.ipos(valid), "invalid id → (nil, error)", "a record with a foreign parent key id is not rejected with (nil, error)")
-	_ = n
 }
 
 // acceptanceLeaves enumerates the boolean leaf conditions that decide f's bool result: If conditions and non-constant
@@ -164,6 +172,9 @@ func ruleC06ExactMatch(c *Ctx) {
 		}
 		for _, l := range leaves {
 			construct := shortName(f) + "/condition[" + strings.ReplaceAll(describeLeaf(l), " ", "") + "]"
+			if x, isPrefix := prefixTestOf(l, f); isPrefix {
+				construct = shortName(f) + "/condition[prefix-of:" + strings.ReplaceAll(x, " ", "") + "]"
+			}
 			pos := u.pos(f.Pos())
 			if in, ok := l.(ssa.Instruction); ok {
 				pos = u.ipos(in)
@@ -184,6 +195,26 @@ func ruleC06ExactMatch(c *Ctx) {
 			}
 		}
 	}
+}
+
+// prefixTestOf: the leaf is a prefix test of the id against some string X (strings.HasPrefix(id, X) or
+// strings.Index(id, X) == 0); returns a description of X.
+func prefixTestOf(v ssa.Value, f *ssa.Function) (string, bool) {
+	desc := func(x ssa.Value) string {
+		if cv, ok := resolve(x).(*ssa.Call); ok {
+			return trimPkgDirs(calleeLabel(cv))
+		}
+		return accessPath(x)
+	}
+	if cv, ok := strip(v).(*ssa.Call); ok && staticIs(cv, "strings.HasPrefix") && isParamNamed(cv.Call.Args[0], f, 1) {
+		return desc(cv.Call.Args[1]), true
+	}
+	if b, ok := v.(*ssa.BinOp); ok && b.Op == token.EQL && isConstInt(b.Y, 0) {
+		if cv, isC := strip(b.X).(*ssa.Call); isC && staticIs(cv, "strings.Index") && isParamNamed(cv.Call.Args[0], f, 1) {
+			return desc(cv.Call.Args[1]), true
+		}
+	}
+	return "", false
 }
 
 func describeLeaf(v ssa.Value) string {
@@ -506,6 +537,14 @@ func ruleC06IDFlowsUnmodified(c *Ctx) {
 			if st, isSt := i.(*ssa.Store); isSt {
 				if _, fld, isF := fieldAccess(st.Addr); isF && fld == "id" && isParamNamed(st.Val, f, 0) {
 					ok = true
+				}
+				// embedded partition built by another constructor given the id parameter first
+				if _, fld, isF := fieldAccess(st.Addr); isF && fld == "defaultPartition" {
+					if cv, isC := resolve(st.Val).(*ssa.Call); isC {
+						if g := staticCallee(cv); g != nil && (g.Name() == "newPartition") && isParamNamed(cv.Call.Args[0], f, 0) {
+							ok = true
+						}
+					}
 				}
 			}
 		})
